@@ -12,9 +12,20 @@ def n_cases(tier, quick, thorough):
     return max(4, int(n * budget_scale()))
 
 
+def want_prelude(case):
+    """about one run in six gets process history: an unmonitored sibling optimisation sharing the callables runs first"""
+    pl = case.get("prelude")
+    if pl is None:
+        sd = case["spec"].get("options", {}).get("random_seed")
+        pl = isinstance(sd, int) and sd % 6 == 0 and case["spec"]["target"].get("kind") != "scripted"
+    return bool(pl)
+
+
 def run_monitored(case, oracles, **kw):
     from ..runmon import RunMonitor
 
+    if "prelude" not in kw:
+        kw["prelude"] = want_prelude(case) and not kw.get("filter_script")
     m = RunMonitor(case["spec"], oracles=oracles, **kw)
     rec = m.run()
     return slim(rec, case)
